@@ -8,7 +8,7 @@
     (3) an invariant over the rows for [PP_rows]; (4) the results are strictly ascending and
     have the same elements as the lists of [pp_expect], hence equal to their [sortN]. *)
 From Utreexo Require Import Model.Utils Proofs.UtilsGeom Proofs.UtilsGeom2 Spec.Geometry.
-From Coq Require Import Lia ZifyN ZifyNat ZifyBool List Sorted Permutation.
+From Coq Require Import Lia ZifyN ZifyNat ZifyBool List Sorted Permutation PeanoNat.
 Import ListNotations.
 Open Scope N_scope.
 
@@ -17,12 +17,12 @@ Lemma gstart_bridge : Geometry.gstart = UtilsGeom.gstart. Proof. reflexivity. Qe
 Lemma gpos_bridge : Geometry.gpos = UtilsGeom.gpos. Proof. reflexivity. Qed.
 Lemma tree_rows_TreeRows n : tree_rows n = TreeRows n. Proof. reflexivity. Qed.
 
-Notation gpos := UtilsGeom.gpos.
-Notation gstart := UtilsGeom.gstart.
+Local Notation gpos := UtilsGeom.gpos.
+Local Notation gstart := UtilsGeom.gstart.
 
 (** * 1. Sorting: [sortN] yields an ascending permutation *)
-Notation SSlt := (StronglySorted N.lt).
-Notation SSle := (StronglySorted N.le).
+Local Notation SSlt := (StronglySorted N.lt).
+Local Notation SSle := (StronglySorted N.le).
 
 Lemma pps_insertN_perm x l : Permutation (insertN x l) (x :: l).
 Proof.
@@ -395,4 +395,804 @@ Section Forest.
     - change (g c2 :: map g rest') with (map g (c2 :: rest')). rewrite IHrest.
       destruct (cPP_row (fst c) (c2 :: rest')) as [[a b] d]. reflexivity.
   Qed.
+
+  (** functional induction for [cPP_row] *)
+  Definition proc (row : N) (c : crd) : Prop := fst c = row /\ isroot c = false.
+  Definition skp (row : N) (c : crd) : Prop := fst c <> row \/ isroot c = true.
+  Definition unpaired (c : crd) (rest : list crd) : Prop :=
+    match rest with c2 :: _ => c2 <> rsib c | [] => True end.
+
+  Lemma pps_cPP_row_ind row (P : list crd -> list crd * list crd * list crd -> Prop) :
+    P [] ([], [], []) ->
+    (forall c rest a b d, skp row c -> cPP_row row rest = (a, b, d) -> P rest (a, b, d) ->
+       P (c :: rest) (c :: a, b, d)) ->
+    (forall c rest' a b d, proc row c -> cPP_row row rest' = (a, b, d) -> P rest' (a, b, d) ->
+       P (c :: rsib c :: rest') (par c :: rsib c :: a, b, par c :: d)) ->
+    (forall c rest a b d, proc row c -> unpaired c rest -> cPP_row row rest = (a, b, d) -> P rest (a, b, d) ->
+       P (c :: rest) (par c :: a, sib c :: b, par c :: d)) ->
+    forall cs, P cs (cPP_row row cs).
+  Proof.
+    intros Hnil Hskip Hpair Hunp.
+    assert (Hk : forall k cs, (length cs <= k)%nat -> P cs (cPP_row row cs)).
+    { induction k as [|k IH]; intros cs Hlen.
+      - destruct cs; [exact Hnil|cbn [length] in Hlen; lia].
+      - destruct cs as [|c rest]; [exact Hnil|]. cbn [length] in Hlen.
+        assert (IHrest : P rest (cPP_row row rest)) by (apply IH; lia).
+        cbn [cPP_row].
+        destruct (N.eqb_spec row (fst c)) as [Er|Er]; cbn [negb orb].
+        2:{ destruct (cPP_row row rest) as [[a b] d] eqn:E. apply Hskip; [left; congruence|exact E|assumption]. }
+        destruct (isroot c) eqn:Eroot.
+        { destruct (cPP_row row rest) as [[a b] d] eqn:E. apply Hskip; [right; assumption|exact E|assumption]. }
+        assert (Hproc : proc row c) by (split; [congruence|assumption]).
+        destruct rest as [|c2 rest'].
+        { apply (Hunp c [] [] [] []); [assumption|exact I|reflexivity|exact Hnil]. }
+        destruct (ceq (rsib c) c2) eqn:Eq.
+        + apply pps_ceq_spec in Eq. subst c2. cbn [length] in Hlen.
+          assert (IHrest' : P rest' (cPP_row row rest')) by (apply IH; lia).
+          destruct (cPP_row row rest') as [[a b] d] eqn:E. apply Hpair; [assumption|exact E|assumption].
+        + destruct (cPP_row row (c2 :: rest')) as [[a b] d] eqn:E.
+          apply Hunp; [assumption| |exact E|assumption].
+          cbn [unpaired]. intros ->. rewrite (proj2 (pps_ceq_spec _ _) eq_refl) in Eq. discriminate. }
+    intros cs. apply (Hk (length cs)). lia.
+  Qed.
+
+  (** offset arithmetic for the pairing logic *)
+  Lemma pps_ar_sib_mono o o' : o < o' -> o' <> N.lxor o 1 -> N.lxor o 1 < N.lxor o' 1.
+  Proof.
+    intros Hlt Hne.
+    destruct (pps_bit0 o) as [k [(E1 & E2 & _)|(E1 & E2 & _)]];
+    destruct (pps_bit0 o') as [k' [(F1 & F2 & _)|(F1 & F2 & _)]]; lia.
+  Qed.
+  Lemma pps_ar_par_mono o o' : o < o' -> o' <> N.lxor o 1 -> o / 2 < o' / 2.
+  Proof.
+    intros Hlt Hne.
+    destruct (pps_bit0 o) as [k [(E1 & E2 & _ & E4)|(E1 & E2 & _ & E4)]];
+    destruct (pps_bit0 o') as [k' [(F1 & F2 & _ & F4)|(F1 & F2 & _ & F4)]]; lia.
+  Qed.
+  Lemma pps_ar_par_inj o o' : o / 2 = o' / 2 -> o' = o \/ o' = N.lxor o 1.
+  Proof.
+    intros E.
+    destruct (pps_bit0 o) as [k [(E1 & E2 & _ & E4)|(E1 & E2 & _ & E4)]];
+    destruct (pps_bit0 o') as [k' [(F1 & F2 & _ & F4)|(F1 & F2 & _ & F4)]]; lia.
+  Qed.
+  Lemma pps_ar_rsib o : o < N.lor o 1 -> N.lor o 1 = N.lxor o 1 /\ N.lxor o 1 = o + 1.
+  Proof. intros H. destruct (pps_bit0 o) as [k [(E1 & E2 & E3 & _)|(E1 & E2 & E3 & _)]]; lia. Qed.
+  Lemma pps_ar_sib_cases o : N.lxor o 1 = o + 1 \/ (N.lxor o 1 + 1 = o /\ N.lor o 1 = o).
+  Proof. destruct (pps_bit0 o) as [k [(E1 & E2 & E3 & _)|(E1 & E2 & E3 & _)]]; lia. Qed.
+
+  Lemma pps_sib_eq_inv c c' : sib c' = c -> c' = sib c.
+  Proof. intros <-. symmetry. apply pps_sib_invol. Qed.
+  Lemma pps_sib_neq c : sib c <> c.
+  Proof.
+    destruct c as [r o]. unfold sib. cbn [fst snd]. intros [= E].
+    destruct (pps_ar_sib_cases o); lia.
+  Qed.
+
+  (** * 6. One pass on a strictly ascending list of forest coordinates *)
+  Definition clt (c c' : crd) : Prop := g c < g c'.
+  Definition passH (row : N) (cs : list crd) : Prop :=
+    StronglySorted clt cs /\ Forall inf cs /\
+    (forall c, In c cs -> fst c = row -> isroot c = false -> ~ In (par c) cs).
+
+  Lemma pps_passH_tail row c rest : passH row (c :: rest) ->
+    passH row rest /\ inf c /\ (forall c', In c' rest -> g c < g c').
+  Proof.
+    intros (Hs & Hi & Hp). apply StronglySorted_inv in Hs. destruct Hs as [Hs Hc].
+    inversion Hi as [|? ? Hic Hir]; subst. rewrite Forall_forall in Hc.
+    split; [|split; [assumption|exact Hc]].
+    split; [assumption|split; [assumption|]].
+    intros c' Hin Hrow Hroot Hpar. apply (Hp c'); [right; assumption|assumption|assumption|right; assumption].
+  Qed.
+
+  (** in the paired case the first one is a left sibling *)
+  Lemma pps_paired_left c : g c < g (rsib c) -> rsib c = sib c /\ g (sib c) = g c + 1.
+  Proof.
+    destruct c as [r o]. unfold g, rsib, sib, UtilsGeom.gpos. cbn [fst snd]. intros H.
+    assert (Ho : o < N.lor o 1) by lia. destruct (pps_ar_rsib o Ho) as [E1 E2].
+    rewrite E1. split; [reflexivity|lia].
+  Qed.
+
+  (** in the unpaired case the sibling is not in the list *)
+  Lemma pps_unpaired_nosib row c rest : passH row (c :: rest) -> unpaired c rest ->
+    ~ In (sib c) (c :: rest).
+  Proof.
+    intros HH Hu. destruct (pps_passH_tail _ _ _ HH) as (HHr & Hic & Hlt).
+    intros [E|Hin]; [symmetry in E; exact (pps_sib_neq c E)|].
+    pose proof (Hlt _ Hin) as H1.
+    assert (Hleft : N.lxor (snd c) 1 = snd c + 1 /\ rsib c = sib c).
+    { destruct c as [r o]. unfold g, sib, rsib, UtilsGeom.gpos in *. cbn [fst snd] in *.
+      destruct (pps_bit0 o) as [k [(E1 & E2 & E3 & _)|(E1 & E2 & E3 & _)]]; [|lia].
+      rewrite E2, E3. split; [lia|reflexivity]. }
+    destruct Hleft as [E1 E2].
+    destruct rest as [|c2 rest']; [contradiction|]. cbn [unpaired] in Hu.
+    destruct Hin as [E|Hin]; [apply Hu; rewrite E2; exact E|].
+    destruct (pps_passH_tail _ _ _ HHr) as (_ & _ & Hlt2).
+    pose proof (Hlt2 _ Hin) as H2. pose proof (Hlt c2 (or_introl eq_refl)) as H3.
+    destruct c as [r o]. unfold g, sib, UtilsGeom.gpos in *. cbn [fst snd] in *. lia.
+  Qed.
+
+  Definition passIn (row : N) (cs : list crd) (res : list crd * list crd * list crd) : Prop :=
+    let '(a, b, d) := res in
+    (forall x, In x a -> In x cs \/ exists c, In c cs /\ proc row c /\ x = par c) /\
+    (forall x, In x cs -> fst x <> row -> In x a) /\
+    (forall x, In x d -> In x a) /\
+    (forall x, In x b <-> exists c, In c cs /\ proc row c /\ ~ In (sib c) cs /\ x = sib c) /\
+    (forall x, In x d <-> exists c, In c cs /\ proc row c /\ x = par c).
+
+  Lemma pps_skp_proc row c : skp row c -> fst c = row -> isroot c = false -> False.
+  Proof. intros [H|H] H1 H2; [contradiction|congruence]. Qed.
+
+  Lemma pps_pass_in row cs : passH row cs -> passIn row cs (cPP_row row cs).
+  Proof.
+    apply (pps_cPP_row_ind row (fun cs res => passH row cs -> passIn row cs res)).
+    - (* nil *)
+      intros _. unfold passIn. repeat split; try (intros x []); try (intros [c [[] _]]); try (intros []).
+    - (* skip *)
+      intros c rest a b d Hskp _ IH HH.
+      destruct (pps_passH_tail _ _ _ HH) as (HHr & Hic & Hlt).
+      destruct (IH HHr) as (A1 & A2 & A4 & B1 & D1). destruct HH as (_ & Hall & _).
+      unfold passIn. repeat split.
+      + intros x [<-|Hx]; [left; left; reflexivity|].
+        destruct (A1 x Hx) as [H|[c' (H1 & [H2 H2'] & H3)]]; [left; right; assumption|].
+        right. exists c'. repeat split; try assumption. right; assumption.
+      + intros x [<-|Hx] Hrow; [left; reflexivity|right; apply A2; assumption].
+      + intros x Hx. right. apply A4; assumption.
+      + intros Hx. apply B1 in Hx. destruct Hx as [c' (H1 & [H2 H2'] & H3 & H4)].
+        exists c'. repeat split; try assumption; [right; assumption|].
+        intros [E|Hin]; [|contradiction].
+        destruct Hskp as [Hrow|Hroot].
+        * apply Hrow. rewrite E. exact H2.
+        * symmetry in E. apply pps_sib_eq_inv in E.
+          rewrite Forall_forall in Hall. pose proof (Hall c' (or_intror H1)) as Hic'.
+          rewrite E in Hic'. exact (pps_root_sib c Hic Hroot Hic').
+      + intros [c' (H1 & [H2 H2'] & H3 & H4)]. apply B1.
+        destruct H1 as [<-|H1]; [exfalso; exact (pps_skp_proc _ _ Hskp H2 H2')|].
+        exists c'. repeat split; try assumption. intros Hin. apply H3. right; assumption.
+      + intros Hx. apply D1 in Hx. destruct Hx as [c' (H1 & [H2 H2'] & H3)].
+        exists c'. repeat split; try assumption. right; assumption.
+      + intros [c' (H1 & [H2 H2'] & H3)]. apply D1.
+        destruct H1 as [<-|H1]; [exfalso; exact (pps_skp_proc _ _ Hskp H2 H2')|].
+        exists c'. repeat split; assumption.
+    - (* paired *)
+      intros c rest' a b d [Hp Hp'] _ IH HH.
+      destruct (pps_passH_tail _ _ _ HH) as (HHr & Hic & Hlt).
+      destruct (pps_passH_tail _ _ _ HHr) as (HHr' & Hic2 & Hlt2).
+      destruct (IH HHr') as (A1 & A2 & A4 & B1 & D1).
+      pose proof (Hlt _ (or_introl eq_refl)) as Hc2.
+      destruct (pps_paired_left c Hc2) as [Ers Eg].
+      unfold passIn. repeat split.
+      + intros x [<-|[<-|Hx]].
+        * right. exists c. repeat split; try assumption. left; reflexivity.
+        * left. right. left. reflexivity.
+        * destruct (A1 x Hx) as [H|[c' (H1 & [H2 H2'] & H3)]]; [left; right; right; assumption|].
+          right. exists c'. repeat split; try assumption. right; right; assumption.
+      + intros x [<-|[<-|Hx]] Hrow.
+        * exfalso. apply Hrow. exact Hp.
+        * right. left. reflexivity.
+        * right. right. apply A2; assumption.
+      + intros x [<-|Hx]; [left; reflexivity|right; right; apply A4; assumption].
+      + intros Hx. apply B1 in Hx. destruct Hx as [c' (H1 & [H2 H2'] & H3 & H4)].
+        exists c'. repeat split; try assumption; [right; right; assumption|].
+        pose proof (Hlt2 _ H1) as Hg2. pose proof (Hlt _ (or_intror H1)) as Hg1.
+        intros [E|[E|Hin]]; [| |contradiction].
+        * symmetry in E. apply pps_sib_eq_inv in E. rewrite <- Ers in E. subst c'. lia.
+        * symmetry in E. apply pps_sib_eq_inv in E. rewrite Ers, pps_sib_invol in E. subst c'. lia.
+      + intros [c' (H1 & [H2 H2'] & H3 & H4)]. apply B1.
+        destruct H1 as [<-|[<-|H1]].
+        * exfalso. apply H3. right. left. exact Ers.
+        * exfalso. apply H3. left. rewrite Ers, pps_sib_invol. reflexivity.
+        * exists c'. repeat split; try assumption.
+          intros Hin. apply H3. right; right; assumption.
+      + intros [<-|Hx].
+        * exists c. repeat split; try assumption. left; reflexivity.
+        * apply D1 in Hx. destruct Hx as [c' (H1 & [H2 H2'] & H3)].
+          exists c'. repeat split; try assumption. right; right; assumption.
+      + intros [c' (H1 & [H2 H2'] & H3)].
+        destruct H1 as [<-|[<-|H1]].
+        * left. symmetry. assumption.
+        * left. rewrite H3, Ers, pps_par_sib. reflexivity.
+        * right. apply D1. exists c'. repeat split; assumption.
+    - (* unpaired *)
+      intros c rest a b d [Hp Hp'] Hunp _ IH HH.
+      destruct (pps_passH_tail _ _ _ HH) as (HHr & Hic & Hlt).
+      destruct (IH HHr) as (A1 & A2 & A4 & B1 & D1).
+      pose proof (pps_unpaired_nosib _ _ _ HH Hunp) as Hnosib.
+      unfold passIn. repeat split.
+      + intros x [<-|Hx].
+        * right. exists c. repeat split; try assumption. left; reflexivity.
+        * destruct (A1 x Hx) as [H|[c' (H1 & [H2 H2'] & H3)]]; [left; right; assumption|].
+          right. exists c'. repeat split; try assumption. right; assumption.
+      + intros x [<-|Hx] Hrow; [exfalso; apply Hrow; exact Hp|right; apply A2; assumption].
+      + intros x [<-|Hx]; [left; reflexivity|right; apply A4; assumption].
+      + intros [<-|Hx].
+        * exists c. repeat split; try assumption. left; reflexivity.
+        * apply B1 in Hx. destruct Hx as [c' (H1 & [H2 H2'] & H3 & H4)].
+          exists c'. repeat split; try assumption; [right; assumption|].
+          intros [E|Hin]; [|contradiction].
+          symmetry in E. apply pps_sib_eq_inv in E. subst c'. apply Hnosib. right; assumption.
+      + intros [c' (H1 & [H2 H2'] & H3 & H4)].
+        destruct H1 as [<-|H1]; [left; symmetry; assumption|].
+        right. apply B1. exists c'. repeat split; try assumption.
+        intros Hin. apply H3. right; assumption.
+      + intros [<-|Hx].
+        * exists c. repeat split; try assumption. left; reflexivity.
+        * apply D1 in Hx. destruct Hx as [c' (H1 & [H2 H2'] & H3)].
+          exists c'. repeat split; try assumption. right; assumption.
+      + intros [c' (H1 & [H2 H2'] & H3)].
+        destruct H1 as [<-|H1]; [left; symmetry; assumption|].
+        right. apply D1. exists c'. repeat split; assumption.
+  Qed.
+
+  Lemma pps_pair_order c c' : fst c = fst c' -> g c < g c' -> c' <> sib c ->
+    g (sib c) < g (sib c') /\ g (par c) < g (par c').
+  Proof.
+    destruct c as [r o], c' as [r' o']. unfold g, sib, par, UtilsGeom.gpos. cbn [fst snd].
+    intros <- Hlt Hne.
+    assert (Ho : o < o') by lia.
+    assert (Hne' : o' <> N.lxor o 1) by (intros ->; apply Hne; reflexivity).
+    pose proof (pps_ar_sib_mono o o' Ho Hne'). pose proof (pps_ar_par_mono o o' Ho Hne'). lia.
+  Qed.
+
+  Lemma pps_par_neq_row c c' : fst c = fst c' -> par c <> c'.
+  Proof. destruct c as [r o], c' as [r' o']. unfold par. cbn [fst snd]. intros <- [= E _]. lia. Qed.
+
+  Definition passOrd (res : list crd * list crd * list crd) : Prop :=
+    let '(a, b, d) := res in NoDup a /\ StronglySorted clt b /\ StronglySorted clt d.
+
+  Lemma pps_pass_ord row cs : passH row cs -> passOrd (cPP_row row cs).
+  Proof.
+    apply (pps_cPP_row_ind row (fun cs res => passH row cs -> passOrd res)).
+    - intros _. unfold passOrd. repeat split; constructor.
+    - (* skip *)
+      intros c rest a b d Hskp E IH HH.
+      destruct (pps_passH_tail _ _ _ HH) as (HHr & Hic & Hlt).
+      destruct (IH HHr) as (N1 & S1 & S2).
+      pose proof (pps_pass_in row rest HHr) as HI. rewrite E in HI. destruct HI as (A1 & _).
+      destruct HH as (_ & _ & Hp).
+      unfold passOrd. repeat split; try assumption.
+      constructor; [|assumption]. intros Hin.
+      destruct (A1 c Hin) as [H|[c' (H1 & [H2 H2'] & H3)]].
+      + pose proof (Hlt c H). lia.
+      + apply (Hp c' (or_intror H1) H2 H2'). rewrite <- H3. left; reflexivity.
+    - (* paired *)
+      intros c rest' a b d [Hp1 Hp2] E IH HH.
+      destruct (pps_passH_tail _ _ _ HH) as (HHr & Hic & Hlt).
+      destruct (pps_passH_tail _ _ _ HHr) as (HHr' & Hic2 & Hlt2).
+      destruct (IH HHr') as (N1 & S1 & S2).
+      pose proof (pps_pass_in row rest' HHr') as HI. rewrite E in HI. destruct HI as (A1 & _ & _ & _ & D1).
+      pose proof (Hlt _ (or_introl eq_refl)) as Hc2.
+      destruct (pps_paired_left c Hc2) as [Ers Eg].
+      destruct HH as (_ & _ & Hp).
+      assert (Hord : forall c', In c' rest' -> fst c' = row -> g (par c) < g (par c')).
+      { intros c' Hin Hrow. pose proof (Hlt2 c' Hin) as Hg.
+        apply pps_pair_order; [congruence|lia|]. intros ->. rewrite Ers in Hg. lia. }
+      unfold passOrd. repeat split; try assumption.
+      + constructor; [|constructor; [|assumption]].
+        * intros [Hin|Hin]; [symmetry in Hin; exact (pps_par_neq_row c (rsib c) eq_refl Hin)|].
+          destruct (A1 _ Hin) as [H|[c' (H1 & [H2 H2'] & H3)]].
+          -- apply (Hp c (or_introl eq_refl) Hp1 Hp2). right; right; assumption.
+          -- pose proof (Hord c' H1 H2). rewrite H3 in *. lia.
+        * intros Hin. destruct (A1 _ Hin) as [H|[c' (H1 & [H2 H2'] & H3)]].
+          -- pose proof (Hlt2 _ H). lia.
+          -- apply (Hp c' (or_intror (or_intror H1)) H2 H2'). rewrite <- H3. right; left; reflexivity.
+      + constructor; [assumption|]. rewrite Forall_forall. intros x Hx.
+        apply D1 in Hx. destruct Hx as [c' (H1 & [H2 H2'] & ->)]. apply Hord; assumption.
+    - (* unpaired *)
+      intros c rest a b d [Hp1 Hp2] Hunp E IH HH.
+      destruct (pps_passH_tail _ _ _ HH) as (HHr & Hic & Hlt).
+      destruct (IH HHr) as (N1 & S1 & S2).
+      pose proof (pps_pass_in row rest HHr) as HI. rewrite E in HI. destruct HI as (A1 & _ & _ & B1 & D1).
+      pose proof (pps_unpaired_nosib _ _ _ HH Hunp) as Hnosib.
+      destruct HH as (_ & _ & Hp).
+      assert (Hord : forall c', In c' rest -> fst c' = row ->
+                g (sib c) < g (sib c') /\ g (par c) < g (par c')).
+      { intros c' Hin Hrow. apply pps_pair_order; [congruence|apply Hlt; assumption|].
+        intros ->. apply Hnosib. right; assumption. }
+      unfold passOrd. repeat split.
+      + constructor; [|assumption]. intros Hin.
+        destruct (A1 _ Hin) as [H|[c' (H1 & [H2 H2'] & H3)]].
+        * apply (Hp c (or_introl eq_refl) Hp1 Hp2). right; assumption.
+        * destruct (Hord c' H1 H2) as [_ Ho]. rewrite H3 in *. lia.
+      + constructor; [assumption|]. rewrite Forall_forall. intros x Hx.
+        apply B1 in Hx. destruct Hx as [c' (H1 & [H2 H2'] & _ & ->)]. apply Hord; assumption.
+      + constructor; [assumption|]. rewrite Forall_forall. intros x Hx.
+        apply D1 in Hx. destruct Hx as [c' (H1 & [H2 H2'] & ->)]. apply Hord; assumption.
+  Qed.
+
+  (** * 7. The invariant over the rows *)
+  Lemma pps_SS_app (A : Type) (R : A -> A -> Prop) l1 l2 :
+    StronglySorted R l1 -> StronglySorted R l2 -> (forall x y, In x l1 -> In y l2 -> R x y) ->
+    StronglySorted R (l1 ++ l2).
+  Proof.
+    induction l1 as [|x t IH]; intros H1 H2 H; [exact H2|].
+    apply StronglySorted_inv in H1. destruct H1 as [H1 Hx]. cbn [app].
+    constructor.
+    - apply IH; [assumption|assumption|]. intros a b Ha Hb. apply H; [right; assumption|assumption].
+    - rewrite Forall_forall in *. intros a Ha. apply in_app_or in Ha. destruct Ha as [Ha|Ha].
+      + apply Hx; assumption.
+      + apply H; [left; reflexivity|assumption].
+  Qed.
+
+  Lemma pps_clt_map cs : StronglySorted clt cs <-> SSlt (map g cs).
+  Proof.
+    induction cs as [|c t IH]; cbn [map]; [split; constructor|].
+    split; intros H; apply StronglySorted_inv in H; destruct H as [H1 H2]; (constructor; [apply IH; assumption|]).
+    - rewrite Forall_forall in *. intros x Hx. apply in_map_iff in Hx. destruct Hx as [c' [<- Hc']].
+      apply H2; assumption.
+    - rewrite Forall_forall in *. intros c' Hc'. apply H2. apply in_map; assumption.
+  Qed.
+
+  Lemma pps_NoDup_map_on (l : list crd) : NoDup l -> (forall x, In x l -> vld x) -> NoDup (map g l).
+  Proof.
+    induction l as [|x t IH]; intros Hnd Hv; cbn [map]; [constructor|].
+    inversion Hnd as [|? ? Hx Ht]; subst. constructor.
+    - intros Hin. apply in_map_iff in Hin. destruct Hin as [y [E Hy]].
+      apply pps_g_inj in E; [subst y; contradiction|apply Hv; right; assumption|apply Hv; left; reflexivity].
+    - apply IH; [assumption|]. intros y Hy. apply Hv; right; assumption.
+  Qed.
+
+  Section Rows.
+    Variables T anc : list crd.
+    Let K := T ++ anc.
+    Hypothesis HK1 : forall c, In c K -> inf c.
+    Hypothesis HK2 : forall c, In c K -> isroot c = false -> In (par c) anc.
+    Hypothesis HK3 : forall c, In c anc -> exists c', In c' K /\ isroot c' = false /\ c = par c'.
+    Hypothesis HK4 : forall c, In c T -> ~ In c anc.
+
+    Definition Inv (r : N) (cs : list crd) : Prop :=
+      StronglySorted clt cs /\
+      (forall c, In c cs -> In c K) /\
+      (forall c, In c cs -> r <= fst c -> fst c = r \/ In c T) /\
+      (forall c, In c K -> fst c = r -> In c cs) /\
+      (forall c, In c T -> r <= fst c -> In c cs).
+
+    Lemma pps_Inv_passH r cs : Inv r cs -> passH r cs.
+    Proof.
+      intros (I1 & I2 & I3 & I4 & I5). split; [assumption|split].
+      - rewrite Forall_forall. intros c Hc. apply HK1, I2; assumption.
+      - intros c Hc Hrow Hroot Hpar.
+        destruct (I3 _ Hpar) as [H|H].
+        + unfold par. cbn [fst]. lia.
+        + unfold par in H. cbn [fst] in H. lia.
+        + apply (HK4 _ H). apply HK2; [apply I2; assumption|assumption].
+    Qed.
+
+    Lemma pps_Inv_step r cs a b d cs' : Inv r cs -> cPP_row r cs = (a, b, d) ->
+      Permutation a cs' -> StronglySorted clt cs' -> Inv (r + 1) cs'.
+    Proof.
+      intros HI E Hperm Hs. pose proof (pps_Inv_passH r cs HI) as HH.
+      pose proof (pps_pass_in r cs HH) as HP. rewrite E in HP. destruct HP as (A1 & A2 & A4 & B1 & D1).
+      destruct HI as (I1 & I2 & I3 & I4 & I5).
+      assert (Hin : forall x, In x cs' <-> In x a).
+      { intros x. split; intros H; [apply (Permutation_in _ (Permutation_sym Hperm))|apply (Permutation_in _ Hperm)]; assumption. }
+      split; [assumption|]. repeat split.
+      - intros x Hx. apply Hin in Hx. destruct (A1 x Hx) as [H|[c (H1 & [H2 H2'] & ->)]].
+        + apply I2; assumption.
+        + apply in_or_app. right. apply HK2; [apply I2; assumption|assumption].
+      - intros x Hx Hrow. apply Hin in Hx. destruct (A1 x Hx) as [H|[c (H1 & [H2 H2'] & ->)]].
+        + destruct (I3 x H ltac:(lia)) as [H'|H']; [lia|right; assumption].
+        + left. unfold par. cbn [fst]. lia.
+      - intros c Hc Hrow. apply Hin. apply in_app_or in Hc. destruct Hc as [Hc|Hc].
+        + apply A2; [apply I5; [assumption|lia]|lia].
+        + destruct (HK3 c Hc) as [c' (H1 & H2 & ->)]. unfold par in Hrow. cbn [fst] in Hrow.
+          apply A4. apply D1. exists c'. repeat split; try assumption; [|lia].
+          apply I4; [assumption|lia].
+      - intros c Hc Hrow. apply Hin. apply A2; [apply I5; [assumption|lia]|lia].
+    Qed.
+
+    (** the proof positions and next targets of one pass, in terms of [K] *)
+    Lemma pps_Inv_out r cs a b d : Inv r cs -> cPP_row r cs = (a, b, d) ->
+      (forall x, In x b <-> exists c, In c K /\ fst c = r /\ isroot c = false /\ ~ In (sib c) K /\ x = sib c) /\
+      (forall x, In x d <-> exists c, In c K /\ fst c = r /\ isroot c = false /\ x = par c).
+    Proof.
+      intros HI E. pose proof (pps_Inv_passH r cs HI) as HH.
+      pose proof (pps_pass_in r cs HH) as HP. rewrite E in HP. destruct HP as (A1 & A2 & A4 & B1 & D1).
+      destruct HI as (I1 & I2 & I3 & I4 & I5). split; intros x.
+      - rewrite B1. split; intros [c (H1 & H2 & H3)].
+        + destruct H2 as [H2 H2']. destruct H3 as [H3 H4]. exists c. repeat split; try assumption; [apply I2; assumption|].
+          intros Hin. apply H3. apply I4; [assumption|exact H2].
+        + destruct H3 as (H3 & H4 & H5). exists c. repeat split; try assumption; [apply I4; assumption|].
+          intros Hin. apply H4. apply I2; assumption.
+      - rewrite D1. split; intros [c (H1 & H2 & H3)].
+        + destruct H2 as [H2 H2']. exists c. repeat split; try assumption. apply I2; assumption.
+        + destruct H3 as (H3 & H4). exists c. repeat split; try assumption. apply I4; assumption.
+    Qed.
+
+    Lemma pps_K_row c : In c K -> fst c <= h.
+    Proof. intros Hc. apply (pps_inf_vld c (HK1 c Hc)). Qed.
+
+    Definition rowsOut (r : N) (bs ds : list crd) : Prop :=
+      StronglySorted clt bs /\ StronglySorted clt ds /\
+      (forall x, In x bs <-> exists c, In c K /\ r <= fst c /\ isroot c = false /\ ~ In (sib c) K /\ x = sib c) /\
+      (forall x, In x ds <-> exists c, In c K /\ r <= fst c /\ isroot c = false /\ x = par c).
+
+    Lemma pps_rowsOut_nil r : h < r -> rowsOut r [] [].
+    Proof.
+      intros Hr. split; [constructor|split; [constructor|]].
+      split; intros x; (split; [intros []|]); intros [c (H1 & H2 & _)];
+        pose proof (pps_K_row c H1); lia.
+    Qed.
+
+    Lemma pps_rows : forall fuel r cs, Inv r cs -> (N.to_nat (h + 2 - r) <= fuel)%nat ->
+      exists bs ds, PP_rows fuel r n h (map g cs) = (map g bs, map g ds) /\ rowsOut r bs ds.
+    Proof.
+      induction fuel as [|f IH]; intros r cs HI Hf.
+      { exists [], []. split; [reflexivity|apply pps_rowsOut_nil; lia]. }
+      cbn [PP_rows]. destruct (N.ltb_spec h r) as [Hr|Hr].
+      { exists [], []. split; [reflexivity|apply pps_rowsOut_nil; lia]. }
+      pose proof (pps_Inv_passH r cs HI) as HH.
+      rewrite pps_PP_row_refines; [|rewrite map_length; lia|apply HH].
+      destruct (cPP_row r cs) as [[a b] d] eqn:E. cbn [map3].
+      pose proof (pps_pass_in r cs HH) as HP. rewrite E in HP. destruct HP as (A1 & _).
+      pose proof (pps_pass_ord r cs HH) as HO. rewrite E in HO. destruct HO as (Nd & Sb & Sd).
+      destruct (pps_Inv_out r cs a b d HI E) as [Bc Dc].
+      (* the sorted working list is again a list of coordinates *)
+      assert (Ha : forall x, In x a -> In x K).
+      { intros x Hx. destruct (A1 x Hx) as [H|[c (H1 & [H2 H2'] & ->)]].
+        - apply HI; assumption.
+        - apply in_or_app. right. apply HK2; [apply HI; assumption|assumption]. }
+      assert (Hnd : NoDup (map g a)).
+      { apply pps_NoDup_map_on; [assumption|]. intros x Hx. apply pps_inf_vld, HK1, Ha; assumption. }
+      destruct (@Permutation_map_inv _ _ g (sortN (map g a)) a (pps_sortN_perm (map g a))) as [cs' [Ecs' Hperm]].
+      assert (Scs' : StronglySorted clt cs').
+      { apply pps_clt_map. rewrite <- Ecs'. apply pps_sortN_NoDup_SSlt; assumption. }
+      pose proof (pps_Inv_step r cs a b d cs' HI E Hperm Scs') as HI'.
+      destruct (IH (r + 1) cs' HI' ltac:(lia)) as [bs' [ds' [Erec (Sb' & Sd' & Bc' & Dc')]]].
+      rewrite Ecs', Erec. exists (b ++ bs'), (d ++ ds'). rewrite !map_app. split; [reflexivity|].
+      split; [|split; [|split]].
+      - apply pps_SS_app; try assumption. intros x y Hx Hy.
+        apply Bc in Hx. destruct Hx as [c (H1 & H2 & H3 & H4 & ->)].
+        apply Bc' in Hy. destruct Hy as [c' (H1' & H2' & H3' & H4' & ->)].
+        apply pps_g_row_lt; [apply pps_sib_vld; [apply HK1|]; assumption
+                            |apply pps_sib_vld; [apply HK1|]; assumption|].
+        unfold sib. cbn [fst]. lia.
+      - apply pps_SS_app; try assumption. intros x y Hx Hy.
+        apply Dc in Hx. destruct Hx as [c (H1 & H2 & H3 & ->)].
+        apply Dc' in Hy. destruct Hy as [c' (H1' & H2' & H3' & ->)].
+        apply pps_g_row_lt; [apply pps_inf_vld, pps_par_inf; [apply HK1|]; assumption
+                            |apply pps_inf_vld, pps_par_inf; [apply HK1|]; assumption|].
+        unfold par. cbn [fst]. lia.
+      - intros x. rewrite in_app_iff, Bc, Bc'. split.
+        + intros [[c (H1 & H2 & H3)]|[c (H1 & H2 & H3)]]; exists c; (split; [assumption|split; [lia|assumption]]).
+        + intros [c (H1 & H2 & H3)]. destruct (N.eq_dec (fst c) r) as [Er|Er].
+          * left. exists c. split; [assumption|split; assumption].
+          * right. exists c. split; [assumption|split; [lia|assumption]].
+      - intros x. rewrite in_app_iff, Dc, Dc'. split.
+        + intros [[c (H1 & H2 & H3)]|[c (H1 & H2 & H3)]]; exists c; (split; [assumption|split; [lia|assumption]]).
+        + intros [c (H1 & H2 & H3)]. destruct (N.eq_dec (fst c) r) as [Er|Er].
+          * left. exists c. split; [assumption|split; assumption].
+          * right. exists c. split; [assumption|split; [lia|assumption]].
+    Qed.
+
+    Lemma pps_Inv_0 : StronglySorted clt T -> Inv 0 T.
+    Proof.
+      intros Hs. split; [assumption|]. repeat split.
+      - intros c Hc. apply in_or_app. left; assumption.
+      - intros c Hc _. right; assumption.
+      - intros c Hc Hrow. apply in_app_or in Hc. destruct Hc as [Hc|Hc]; [assumption|].
+        destruct (HK3 c Hc) as [c' (_ & _ & ->)]. unfold par in Hrow. cbn [fst] in Hrow. lia.
+      - intros c Hc _. assumption.
+    Qed.
+
+    Lemma pps_main_rows : StronglySorted clt T ->
+      exists bs ds, ProofPositions (map g T) n h = (map g bs, map g ds) /\ rowsOut 0 bs ds.
+    Proof.
+      intros Hs. unfold ProofPositions. apply pps_rows; [apply pps_Inv_0; assumption|lia].
+    Qed.
+
+    (** the result equals the sorted sibling and ancestor lists of the specification *)
+    Lemma pps_main_lists sibs :
+      (forall s, In s sibs <-> exists c, In c K /\ isroot c = false /\ ~ In (sib c) K /\ s = sib c) ->
+      NoDup sibs -> NoDup anc -> StronglySorted clt T ->
+      ProofPositions (map g T) n h = (sortN (map g sibs), sortN (map g anc)).
+    Proof.
+      intros Hsibs Nsibs Nanc Hs.
+      destruct (pps_main_rows Hs) as [bs [ds [E (Sb & Sd & Bc & Dc)]]]. rewrite E. f_equal.
+      - symmetry. apply pps_sortN_unique.
+        + apply pps_clt_map; assumption.
+        + apply pps_NoDup_map_on; [assumption|]. intros s Hin. apply Hsibs in Hin.
+          destruct Hin as [c (H1 & H2 & _ & ->)]. apply pps_sib_vld; [apply HK1|]; assumption.
+        + intros x. rewrite !in_map_iff. split; intros [s [<- Hin]]; exists s; (split; [reflexivity|]).
+          * apply Hsibs. apply Bc in Hin. destruct Hin as [c (H1 & _ & H2)]. exists c. split; assumption.
+          * apply Bc. apply Hsibs in Hin. destruct Hin as [c (H1 & H2)]. exists c.
+            split; [assumption|split; [lia|assumption]].
+      - symmetry. apply pps_sortN_unique.
+        + apply pps_clt_map; assumption.
+        + apply pps_NoDup_map_on; [assumption|]. intros s Hin. apply pps_inf_vld, HK1, in_or_app. right; assumption.
+        + intros x. rewrite !in_map_iff. split; intros [s [<- Hin]]; exists s; (split; [reflexivity|]).
+          * apply Dc in Hin. destruct Hin as [c (H1 & _ & H2 & ->)]. apply HK2; assumption.
+          * apply Dc. destruct (HK3 s Hin) as [c (H1 & H2 & ->)]. exists c.
+            split; [assumption|split; [lia|split; [assumption|reflexivity]]].
+    Qed.
+  End Rows.
 End Forest.
+
+(** * 8. The specification side: [cmem], [cdedup], [coord_of], [ancestors] *)
+Lemma pps_ceqb_spec a b : ceqb a b = true <-> a = b.
+Proof.
+  destruct a as [r o], b as [r' o']. unfold ceqb. cbn [fst snd].
+  rewrite Bool.andb_true_iff, !N.eqb_eq. split; [intros [-> ->]; reflexivity|intros [= -> ->]; split; reflexivity].
+Qed.
+
+Lemma pps_cmem_spec c l : cmem c l = true <-> In c l.
+Proof.
+  induction l as [|x t IH]; cbn [cmem In]; [split; [discriminate|intros []]|].
+  rewrite Bool.orb_true_iff, pps_ceqb_spec, IH. split; intros [H|H]; auto.
+Qed.
+
+Lemma pps_cmem_false c l : cmem c l = false <-> ~ In c l.
+Proof. rewrite <- pps_cmem_spec. destruct (cmem c l); split; congruence. Qed.
+
+Lemma pps_cdedup_In c l : In c (cdedup l) <-> In c l.
+Proof.
+  induction l as [|x t IH]; cbn [cdedup]; [reflexivity|].
+  destruct (cmem x t) eqn:E.
+  - rewrite IH. cbn [In]. split; [auto|]. intros [<-|H]; [apply pps_cmem_spec; assumption|assumption].
+  - cbn [In]. rewrite IH. reflexivity.
+Qed.
+
+Lemma pps_cdedup_NoDup l : NoDup (cdedup l).
+Proof.
+  induction l as [|x t IH]; cbn [cdedup]; [constructor|].
+  destruct (cmem x t) eqn:E; [assumption|].
+  constructor; [|assumption]. rewrite pps_cdedup_In. apply pps_cmem_false; assumption.
+Qed.
+
+Lemma pps_coord_loop_spec h p : forall fuel r r' o, coord_loop fuel h r p = Some (r', o) ->
+  r' <= h /\ o < 2 ^ (h - r') /\ p = gpos h r' o.
+Proof.
+  induction fuel as [|f IH]; intros r r' o; cbn [coord_loop]; [discriminate|].
+  destruct (N.ltb_spec h r) as [Hr|Hr]; [discriminate|].
+  destruct (N.leb_spec (Geometry.gstart h r) p) as [H1|H1]; cbn [andb].
+  - destruct (N.ltb_spec p (Geometry.gstart h r + 2 ^ (h - r))) as [H2|H2].
+    + intros [= <- <-]. rewrite gstart_bridge in *. unfold UtilsGeom.gpos. repeat split; lia.
+    + apply IH.
+  - apply IH.
+Qed.
+
+Lemma pps_coord_of_spec h p r o : coord_of h p = Some (r, o) ->
+  r <= h /\ o < 2 ^ (h - r) /\ p = gpos h r o.
+Proof. unfold coord_of. destruct (63 <? h); [discriminate|]. apply pps_coord_loop_spec. Qed.
+
+Definition pps_somes (ocs : list (option (N * N))) : list (N * N) :=
+  flat_map (fun o => match o with Some c => [c] | None => [] end) ocs.
+
+Lemma pps_decode h ts :
+  forallb (fun o : option (N * N) => match o with Some _ => true | None => false end) (map (coord_of h) ts) = true ->
+  ts = map (g h) (pps_somes (map (coord_of h) ts)).
+Proof.
+  induction ts as [|t ts IH]; cbn [map forallb]; [reflexivity|].
+  destruct (coord_of h t) as [[r o]|] eqn:E; [|discriminate]. cbn [andb]. intros H.
+  unfold pps_somes. cbn [flat_map app map]. fold (pps_somes (map (coord_of h) ts)).
+  rewrite <- IH by assumption. f_equal.
+  destruct (pps_coord_of_spec h t r o E) as (_ & _ & ->). reflexivity.
+Qed.
+
+Section Ancestors.
+  Variables n h : N.
+  Hypothesis Hh : h <= 63.
+  Hypothesis Hn : n <= 2 ^ h.
+
+  Lemma pps_anc_inf : forall fuel c, inf n c -> forall x, In x (ancestors fuel n c) -> inf n x.
+  Proof.
+    induction fuel as [|f IH]; intros c Hc x; cbn [ancestors]; [intros []|].
+    destruct (is_root_c n c) eqn:Er; [intros []|].
+    pose proof (pps_par_inf n c Hc Er) as Hp.
+    intros [<-|Hx]; [exact Hp|]. exact (IH (par c) Hp x Hx).
+  Qed.
+
+  Lemma pps_anc_closed : forall fuel c, inf n c -> (N.to_nat (h + 1 - fst c) <= fuel)%nat ->
+    (is_root_c n c = false -> In (par c) (ancestors fuel n c)) /\
+    (forall x, In x (ancestors fuel n c) -> is_root_c n x = false -> In (par x) (ancestors fuel n c)).
+  Proof.
+    induction fuel as [|f IH]; intros c Hc Hf.
+    { destruct (pps_inf_vld n h Hn c Hc) as [H _]. lia. }
+    cbn [ancestors]. destruct (is_root_c n c) eqn:Er.
+    { split; [discriminate|intros x []]. }
+    pose proof (pps_par_inf n c Hc Er) as Hp.
+    assert (Hf' : (N.to_nat (h + 1 - fst (par c)) <= f)%nat) by (unfold par; cbn [fst]; lia).
+    destruct (IH (par c) Hp Hf') as [IH1 IH2].
+    split; [intros _; left; reflexivity|].
+    intros x [<-|Hx] Hrx; right; [apply IH1|apply IH2]; assumption.
+  Qed.
+
+  Lemma pps_anc_src : forall fuel c x, In x (ancestors fuel n c) ->
+    exists c', (c' = c \/ In c' (ancestors fuel n c)) /\ is_root_c n c' = false /\ x = par c'.
+  Proof.
+    induction fuel as [|f IH]; intros c x; cbn [ancestors]; [intros []|].
+    destruct (is_root_c n c) eqn:Er; [intros []|].
+    intros [<-|Hx].
+    - exists c. split; [left; reflexivity|split; [assumption|reflexivity]].
+    - destruct (IH (par c) x Hx) as [c' (H1 & H2 & H3)]. exists c'.
+      split; [right|split; assumption].
+      destruct H1 as [->|H1]; [left; reflexivity|right; assumption].
+  Qed.
+End Ancestors.
+
+(** * 9. Main theorem *)
+Theorem proof_positions_spec n h ts pp comp :
+  pp_expect n h ts = Some (pp, comp) -> StronglySorted N.lt ts ->
+  ProofPositions ts n h = (pp, comp).
+Proof.
+  unfold pp_expect. intros Hexp Hsorted.
+  destruct (N.ltb_spec 63 h) as [Hh|Hh]; [discriminate|].
+  destruct (N.ltb_spec h (tree_rows n)) as [Htr|Htr]; [discriminate|].
+  destruct (N.leb_spec n (2 ^ 63)) as [Hn63|Hn63]; [|discriminate].
+  cbn [orb negb] in Hexp.
+  assert (Hn : n <= 2 ^ h) by (apply TreeRows_le_iff; rewrite <- tree_rows_TreeRows; assumption).
+  destruct (forallb _ (map (coord_of h) ts)) eqn:Hdec; [|discriminate].
+  fold (pps_somes (map (coord_of h) ts)) in Hexp.
+  pose proof (pps_decode h ts Hdec) as Ets.
+  set (cs := pps_somes (map (coord_of h) ts)) in *.
+  destruct (pp_valid n h cs) eqn:Hval; [|discriminate].
+  match type of Hexp with Some (?a, ?b) = _ => remember a as ppx eqn:Eppx; remember b as cox eqn:Ecox end.
+  injection Hexp as <- <-. subst ppx cox.
+  unfold pp_valid in Hval. apply Bool.andb_true_iff in Hval. destruct Hval as [Hval _].
+  apply Bool.andb_true_iff in Hval. destruct Hval as [Hv1 Hv2].
+  rewrite forallb_forall in Hv1, Hv2.
+  set (anc := cdedup (flat_map (ancestors 70 n) cs)).
+  change (fun c : N * N => Geometry.gpos h (fst c) (snd c)) with (g h).
+  assert (Hcs : forall c, In c cs -> inf n c).
+  { intros c Hc. specialize (Hv1 c Hc). apply Bool.andb_true_iff in Hv1. apply Hv1. }
+  assert (Hanc : forall c, In c anc <-> exists t, In t cs /\ In c (ancestors 70 n t)).
+  { intros c. unfold anc. rewrite pps_cdedup_In, in_flat_map. reflexivity. }
+  assert (HK1 : forall c, In c (cs ++ anc) -> inf n c).
+  { intros c Hc. apply in_app_or in Hc. destruct Hc as [Hc|Hc]; [apply Hcs; assumption|].
+    apply Hanc in Hc. destruct Hc as [t [Ht Hc]]. exact (pps_anc_inf n 70 t (Hcs t Ht) c Hc). }
+  assert (Hfuel : forall c : crd, (N.to_nat (h + 1 - fst c) <= 70)%nat) by (intros c; lia).
+  rewrite Ets. apply (pps_main_lists n h Hh Hn cs anc HK1).
+  - intros c Hc Hroot. apply in_app_or in Hc. destruct Hc as [Hc|Hc].
+    + apply Hanc. exists c. split; [assumption|].
+      destruct (pps_anc_closed n h Hh Hn 70 c (Hcs c Hc) (Hfuel c)) as [Hcl _]. apply Hcl. exact Hroot.
+    + apply Hanc in Hc. destruct Hc as [t [Ht Hc]]. apply Hanc. exists t. split; [assumption|].
+      destruct (pps_anc_closed n h Hh Hn 70 t (Hcs t Ht) (Hfuel t)) as [_ Hcl]. apply Hcl; assumption.
+  - intros c Hc. apply Hanc in Hc. destruct Hc as [t [Ht Hc]].
+    destruct (pps_anc_src n 70 t c Hc) as [c' (H1 & H2 & H3)]. exists c'.
+    split; [|split; assumption]. apply in_or_app. destruct H1 as [->|H1]; [left; assumption|right].
+    apply Hanc. exists t. split; assumption.
+  - intros c Hc Hin. specialize (Hv2 c Hc). apply Bool.negb_true_iff, pps_cmem_false in Hv2.
+    apply Hv2. unfold anc in Hin. exact (proj1 (pps_cdedup_In _ _) Hin).
+  - intros s. rewrite pps_cdedup_In, in_flat_map. split.
+    + intros [c [Hc Hs]]. exists c. split; [assumption|].
+      unfold isroot. destruct (is_root_c n c); [destruct Hs|]. split; [reflexivity|].
+      fold (sib c) in Hs. destruct (cmem (sib c) (cs ++ anc)) eqn:Em; [destruct Hs|].
+      apply pps_cmem_false in Em. split; [assumption|]. destruct Hs as [<-|[]]. reflexivity.
+    + intros [c (Hc & Hroot & Hnin & ->)]. exists c. split; [assumption|].
+      unfold isroot in Hroot. rewrite Hroot. fold (sib c).
+      apply pps_cmem_false in Hnin. match goal with |- In _ (if ?b then _ else _) => replace b with false by (symmetry; exact Hnin) end.
+      left; reflexivity.
+  - apply pps_cdedup_NoDup.
+  - apply pps_cdedup_NoDup.
+  - apply pps_clt_map. rewrite <- Ets. assumption.
+Qed.
+
+Print Assumptions proof_positions_spec.
+
+(** The full statement, as a proposition (proved by [proof_positions_spec]). *)
+Definition proof_positions_spec_statement : Prop :=
+  forall n h ts pp comp,
+    pp_expect n h ts = Some (pp, comp) -> StronglySorted N.lt ts ->
+    ProofPositions ts n h = (pp, comp).
+Lemma proof_positions_spec_statement_holds : proof_positions_spec_statement.
+Proof. exact proof_positions_spec. Qed.
+
+(** * 10. Weakly ascending targets suffice: valid targets are distinct *)
+Lemma pps_cdedup_length l : (length (cdedup l) <= length l)%nat.
+Proof.
+  induction l as [|x t IH]; cbn [cdedup length]; [lia|].
+  destruct (cmem x t); cbn [length]; lia.
+Qed.
+
+Lemma pps_cdedup_length_NoDup l : Nat.eqb (length (cdedup l)) (length l) = true -> NoDup l.
+Proof.
+  induction l as [|x t IH]; [constructor|]. cbn [cdedup]. rewrite Nat.eqb_eq.
+  destruct (cmem x t) eqn:E; cbn [length]; intros H.
+  - pose proof (pps_cdedup_length t). lia.
+  - constructor; [apply pps_cmem_false; assumption|]. apply IH. apply Nat.eqb_eq. lia.
+Qed.
+
+Lemma pp_expect_NoDup n h ts pp comp : pp_expect n h ts = Some (pp, comp) -> NoDup ts.
+Proof.
+  unfold pp_expect. intros Hexp.
+  destruct (N.ltb_spec 63 h) as [Hh|Hh]; [discriminate|].
+  destruct (N.ltb_spec h (tree_rows n)) as [Htr|Htr]; [discriminate|].
+  destruct (N.leb_spec n (2 ^ 63)) as [Hn63|Hn63]; [|discriminate].
+  cbn [orb negb] in Hexp.
+  assert (Hn : n <= 2 ^ h) by (apply TreeRows_le_iff; rewrite <- tree_rows_TreeRows; assumption).
+  destruct (forallb _ (map (coord_of h) ts)) eqn:Hdec; [|discriminate].
+  fold (pps_somes (map (coord_of h) ts)) in Hexp.
+  pose proof (pps_decode h ts Hdec) as Ets.
+  set (cs := pps_somes (map (coord_of h) ts)) in *.
+  destruct (pp_valid n h cs) eqn:Hval; [|discriminate]. clear Hexp.
+  unfold pp_valid in Hval. apply Bool.andb_true_iff in Hval. destruct Hval as [Hval Hv3].
+  apply Bool.andb_true_iff in Hval. destruct Hval as [Hv1 _].
+  rewrite forallb_forall in Hv1.
+  rewrite Ets. apply (pps_NoDup_map_on h); [apply pps_cdedup_length_NoDup; assumption|].
+  intros c Hc. specialize (Hv1 c Hc). apply Bool.andb_true_iff in Hv1.
+  apply (pps_inf_vld n h Hn). apply Hv1.
+Qed.
+
+Theorem proof_positions_spec_le n h ts pp comp :
+  pp_expect n h ts = Some (pp, comp) -> StronglySorted N.le ts ->
+  ProofPositions ts n h = (pp, comp).
+Proof.
+  intros Hexp Hs. apply proof_positions_spec; [assumption|].
+  apply pps_SSle_NoDup_SSlt; [assumption|]. exact (pp_expect_NoDup n h ts pp comp Hexp).
+Qed.
+
+(** the two results are strictly ascending *)
+Lemma pp_expect_sorted n h ts pp comp :
+  pp_expect n h ts = Some (pp, comp) -> StronglySorted N.le pp /\ StronglySorted N.le comp.
+Proof.
+  unfold pp_expect. intros Hexp.
+  destruct ((63 <? h) || (h <? tree_rows n) || negb (n <=? 2 ^ 63)); [discriminate|].
+  destruct (forallb _ (map (coord_of h) ts)); [|discriminate].
+  destruct (pp_valid n h _); [|discriminate].
+  match type of Hexp with Some (?a, ?b) = _ => remember a as ppx eqn:Eppx; remember b as cox eqn:Ecox end.
+  injection Hexp as <- <-. subst ppx cox. split; apply pps_sortN_sorted.
+Qed.
+
+(** * 11. Examples: 10 leaves (trees of 8 and 2 leaves), targets on rows 0 and 1 *)
+Example pps_ex_h4 :
+  pp_expect 10 4 [0; 8; 17] = Some ([1; 9; 25], [16; 20; 24; 28]) /\
+  ProofPositions [0; 8; 17] 10 4 = ([1; 9; 25], [16; 20; 24; 28]).
+Proof. split; vm_compute; reflexivity. Qed.
+
+Example pps_ex_h4_by_thm : ProofPositions [0; 8; 17] 10 4 = ([1; 9; 25], [16; 20; 24; 28]).
+Proof.
+  apply proof_positions_spec; [vm_compute; reflexivity|].
+  repeat constructor.
+Qed.
+
+Example pps_ex_h63 :
+  pp_expect 10 63 [0; 8; 2 ^ 63 + 1] =
+    Some ([1; 9; 2 ^ 63 + 2 ^ 62 + 1], [2 ^ 63; 2 ^ 63 + 4; 2 ^ 63 + 2 ^ 62; 2 ^ 63 + 2 ^ 62 + 2 ^ 61]) /\
+  ProofPositions [0; 8; 2 ^ 63 + 1] 10 63 =
+    ([1; 9; 2 ^ 63 + 2 ^ 62 + 1], [2 ^ 63; 2 ^ 63 + 4; 2 ^ 63 + 2 ^ 62; 2 ^ 63 + 2 ^ 62 + 2 ^ 61]).
+Proof. split; vm_compute; reflexivity. Qed.
+
+(** all eight leaves of a full tree: no proof positions, every inner node is computable *)
+Example pps_ex_full :
+  pp_expect 8 3 [0; 1; 2; 3; 4; 5; 6; 7] = Some ([], [8; 9; 10; 11; 12; 13; 14]) /\
+  ProofPositions [0; 1; 2; 3; 4; 5; 6; 7] 8 3 = ([], [8; 9; 10; 11; 12; 13; 14]).
+Proof. split; vm_compute; reflexivity. Qed.
+
+(** nested targets (4 lies below 10 in the forest of 7 leaves) are outside the specification *)
+Example pps_ex_nested : pp_expect 7 3 [2; 3; 4; 10] = None.
+Proof. vm_compute; reflexivity. Qed.
+
+Print Assumptions proof_positions_spec_le.
+
+(** * 12. The same result without [pp_expect]: targets [T] and any list [anc] that is exactly the
+    set of proper ancestors of [T] (closed under parents of non-roots, generated by them, disjoint
+    from [T]).  The proof positions are the siblings of non-root members of [T ++ anc] that are not
+    members; the second result is [anc]; both strictly ascending. *)
+Theorem proof_positions_members n h (T anc : list crd) :
+  h <= 63 -> n <= 2 ^ h ->
+  (forall c, In c (T ++ anc) -> in_forest n (fst c) (snd c) = true) ->
+  (forall c, In c (T ++ anc) -> is_root_c n c = false -> In (par c) anc) ->
+  (forall c, In c anc -> exists c', In c' (T ++ anc) /\ is_root_c n c' = false /\ c = par c') ->
+  (forall c, In c T -> ~ In c anc) ->
+  StronglySorted N.lt (map (g h) T) ->
+  exists bs ds,
+    ProofPositions (map (g h) T) n h = (map (g h) bs, map (g h) ds) /\
+    StronglySorted N.lt (map (g h) bs) /\ StronglySorted N.lt (map (g h) ds) /\
+    (forall x, In x bs <-> exists c, In c (T ++ anc) /\ is_root_c n c = false /\
+                                     ~ In (sib c) (T ++ anc) /\ x = sib c) /\
+    (forall x, In x ds <-> In x anc).
+Proof.
+  intros Hh Hn HK1 HK2 HK3 HK4 Hs.
+  destruct (pps_main_rows n h Hh Hn T anc HK1 HK2 HK3 HK4 (proj2 (pps_clt_map h T) Hs))
+    as [bs [ds [E (Sb & Sd & Bc & Dc)]]].
+  exists bs, ds. split; [exact E|].
+  split; [apply pps_clt_map; assumption|split; [apply pps_clt_map; assumption|]].
+  split; intros x.
+  - rewrite Bc. split; intros [c H]; exists c.
+    + destruct H as (H1 & _ & H2). split; assumption.
+    + destruct H as (H1 & H2). split; [assumption|split; [lia|assumption]].
+  - rewrite Dc. split.
+    + intros [c (H1 & _ & H2 & ->)]. apply HK2; assumption.
+    + intros Hx. destruct (HK3 x Hx) as [c (H1 & H2 & ->)]. exists c.
+      split; [assumption|split; [lia|split; [assumption|reflexivity]]].
+Qed.
+Print Assumptions proof_positions_members.
